@@ -409,7 +409,12 @@ func (dest *destination) implicitWithdraw(logger *slog.Logger, newPath *Path) *P
 				slog.String("Path", path.String()))
 
 			found = i
-			newPath.localID = path.localID
+			// A soft reset re-injects the stored path itself (or one that
+			// already carries the identifier): skip the redundant write,
+			// readers of the stored path (API listings) take no lock.
+			if newPath.localID != path.localID {
+				newPath.localID = path.localID
+			}
 			break
 		}
 	}
